@@ -38,6 +38,8 @@ type Frame struct {
 	parent   *Frame
 	label    string
 	quantDepth int
+	freshArraysOnly bool
+	preCallAlloc    Term
 	pointwise  map[string][]Term
 	localObjs  []localObj        // escaping local allocations of this frame (objects in the symbolic heap)
 	passedRefs map[string]bool   // references handed to the call being processed
